@@ -1,0 +1,68 @@
+//go:build verif
+
+// Contracts for "forged or altered state tokens never reach stream state" (property C12).
+// Comment-only.
+//
+// aeadOpened(ct, nonce, aad) is the verdict of the AEAD's Open (standard idealisation: it
+// succeeds only for a ciphertext sealed under the same key, nonce and AAD, unaltered). openToken
+// touches the plaintext — decompression, gob decoding into the caller's structure — only after
+// that verdict, under the key derived from the server's whole token key and the AAD of the
+// presenting identity; every authenticity failure is the one uniform error. In
+// handleStreamExchange no rehydrate callback, dispatch hook, sticky-session resolution or state
+// method runs before the cursor was opened AND the call it names was resolved.
+
+package vgirpc
+
+//@ ghost pred aeadOpened(ct []byte, nonce []byte, aad []byte)
+//@ ghost pred tokenOpened(token []byte, version int, aad []byte)
+//@ ghost pred cursorAuthentic(token []byte, auth *AuthContext)
+//@ ghost pred callResolved(cursor *cursorTokenData, auth *AuthContext)
+
+// normalizeTokenKey: a key of exactly the cipher's size is used as it is; every other key is
+// hashed as a whole (never truncated), so distinct keys stay distinct up to SHA-256.
+//
+//@ func normalizeTokenKey
+//@   property C12
+//@   modifies nothing
+//@   ensures [local_asis_ret1] len(key) == 32 && result == key
+//@   at call sha256.Sum256 assert [whole] arg0 == key && len(key) != 32
+
+//@ func (*HttpServer).openToken
+//@   property C12
+//@   pathflag authenticated
+//@   at call normalizeTokenKey assert [serverkey] arg0 == h.tokenKey
+//@   at call cipher.AEAD.Open assert [aad] arg4 == aad
+//@   at call cipher.AEAD.Open assert [nonce] len(arg2) == 24 && arr(arg2) == arr(raw) && off(arg2) == off(raw) + 1
+//@   at call cipher.AEAD.Open assert [ciphertext] arr(arg3) == arr(raw) && off(arg3) == off(raw) + 25 && len(arg3) == len(raw) - 25
+//@   at call normalizeTokenKey assert [version] raw[0] == version && len(raw) >= 41
+//@   at call cipher.AEAD.Open mark authenticated
+//@   at call unpackTokenPayload assert [authfirst] authenticated && arg0 == sealed
+//@   at call (*gob.Decoder).Decode assert [decodeafter] authenticated && arg1 == out
+//@   establishes result == nil ==> tokenOpened(token, version, aad)
+//@   ensures [local_uniform_ret5] typeof(result) == *RpcError && as(result, "*RpcError").Type == "RuntimeError" && as(result, "*RpcError").Message == "State token signature verification failed"
+
+// the cursor is opened under the cursor version and the AAD of the presenting identity
+//
+//@ func (*HttpServer).openCursorToken
+//@   property C12
+//@   at call (*HttpServer).openToken assert [cursor] arg1 == 6 && arg2 == token
+//@   at call stateTokenAad assert [identity] arg0 == auth
+//@   establishes result1 == nil ==> cursorAuthentic(token, auth)
+//@   ensures [nonnil] result1 == nil ==> result0 != nil
+
+//@ func (*HttpServer).resolveCall
+//@   property C12
+//@   at call (*HttpServer).openToken assert [calltoken] arg1 == 1 && arg2 == callToken
+//@   at call callTokenAad assert [identity] arg0 == auth
+//@   establishes result1 == nil ==> callResolved(cursor, auth)
+
+//@ func (*HttpServer).handleStreamExchange
+//@   property C12
+//@   at call (*HttpServer).openCursorToken assert [presented] arg1 == tokenBytes && arg2 == auth
+//@   at call (*HttpServer).resolveCall assert [afteropen] cursorAuthentic(tokenBytes, auth) && arg1 == tokenData && arg3 == auth
+//@   at call "field:HttpServer.rehydrateFunc" assert [gate_rehydrate] cursorAuthentic(tokenBytes, auth) && callResolved(tokenData, auth)
+//@   at call (*HttpServer).startDispatchHook assert [gate_hook] cursorAuthentic(tokenBytes, auth) && callResolved(tokenData, auth)
+//@   at call (*HttpServer).installStickyOnRequestNoCtx assert [gate_sticky] cursorAuthentic(tokenBytes, auth) && callResolved(tokenData, auth)
+//@   at call (*HttpServer).handleStreamCancel assert [gate_cancel] cursorAuthentic(tokenBytes, auth) && callResolved(tokenData, auth)
+//@   at call (*HttpServer).handleProducerContinuation assert [gate_producer] cursorAuthentic(tokenBytes, auth) && callResolved(tokenData, auth)
+//@   at call (*HttpServer).handleExchangeCall assert [gate_exchange] cursorAuthentic(tokenBytes, auth) && callResolved(tokenData, auth)
